@@ -144,6 +144,10 @@ class Check:
                 case = self.shrink(case, v.klass)
             except HarnessError as e:
                 sys.stderr.write("shrink trouble: %s\n" % e)
+            try:
+                case = self.minimise_schedule(case, v.klass)
+            except HarnessError as e:
+                sys.stderr.write("schedule minimisation trouble: %s\n" % e)
             # confirm from the replay content, twice
             ok = 0
             last = None
@@ -161,6 +165,10 @@ class Check:
             os.makedirs(REPLAYS, exist_ok=True)
             rp = {"property": self.prop, "class": v.klass, "detail": last, "case": case,
                   "tree": tree_hash(), "seed": self.seed, "tier": self.tier}
+            try:
+                rp["schedule_and_fault_trace"] = self.trace_of(case)
+            except Exception as e:  # human-readable extra only
+                rp["schedule_and_fault_trace"] = "unavailable: %s" % e
             path = os.path.join(REPLAYS, "%s-%s.json" % (self.prop, jhash(rp)[:10]))
             with open(path, "w") as f:
                 json.dump(rp, f, indent=1, default=str)
@@ -193,6 +201,112 @@ class Check:
                         improved = True
                         break
         return case
+
+    # -------------------------------------------------------- schedule minimisation
+    def _holds(self, case, klass, twice=True):
+        for _ in range(2 if twice else 1):
+            vd = self.m.evaluate(case, self)
+            if not any(k == klass for k, _ in vd.violations):
+                return None
+        return vd
+
+    def trace_of(self, case):
+        """Human-readable event traces (scheduler steps 'goroutine @site /candidates', select draws, seam notes for
+        file operations and fired faults) of the simulated runs of a (minimised) failing case."""
+        import copy
+        c2 = copy.deepcopy(case)
+        for sl in sched_slots(c2):
+            sl["sched"]["want_trace"] = True
+        vd = self.m.evaluate(c2, self)
+        out = []
+        for r in vd.runs:
+            if (r.spec.get("sched") or {}).get("want_trace"):
+                out.append({"args": r.spec.get("args"), "outcome": r.klass(), "fired": r.fired[:6], "events": len(r.trace),
+                            "trace": r.trace[:150] + (["... (%d more)" % (len(r.trace) - 300)] if len(r.trace) > 300 else []) + r.trace[150:][-150:]})
+        return out[:4]
+
+    def minimise_schedule(self, case, klass, max_evals=220, max_s=150):
+        """Turns the (policy, seed) schedules of a shrunk failing case into explicit choice lists (indices into the
+        name-sorted candidate list at each scheduler step, select draws included) and minimises them: shortest
+        prefix (the rest defaults to 0 = first candidate), then ddmin-style zeroing of chunks, while the same
+        violation class persists.  The replay file then holds the schedule itself, not a generator seed."""
+        import copy
+        slots = sched_slots(case)
+        if not slots or len(slots) > 4:
+            return case
+        t_end = time.time() + max_s
+        work = copy.deepcopy(case)
+        wslots = sched_slots(work)
+        for sl in wslots:
+            sl["sched"]["want_choices"] = True
+        vd = self.m.evaluate(work, self)
+        if not any(k == klass for k, _ in vd.violations):
+            return case
+        got = {}
+        for r in vd.runs:
+            sc = r.spec.get("sched") or {}
+            if sc.get("want_choices"):
+                got[sched_key(sc)] = r.choices
+        cand = copy.deepcopy(case)
+        cslots = sched_slots(cand)
+        for sl, wsl in zip(cslots, wslots):
+            ch = got.get(sched_key(wsl["sched"]))
+            if ch is None:
+                return case
+            keep = {k: v for k, v in sl["sched"].items() if k in ("crash_step", "max_steps", "max_ticks")}
+            sl["sched"] = dict(keep, policy="first", seed=1, choices=list(ch), replay=True)
+        if not self._holds(cand, klass):
+            return case  # explicit list does not reproduce (should not happen); keep the seed form
+        evals = [0]
+
+        def attempt(new_lists):
+            if evals[0] >= max_evals or time.time() > t_end:
+                return None
+            evals[0] += 1
+            c2 = copy.deepcopy(cand)
+            for sl, nl in zip(sched_slots(c2), new_lists):
+                sl["sched"]["choices"] = nl
+            return c2 if self._holds(c2, klass, twice=False) else None
+
+        lists = [sl["sched"]["choices"] for sl in cslots]
+        for i in range(len(lists)):
+            # 1. shortest prefix
+            lo, hi = 0, len(lists[i])
+            while lo < hi:
+                mid = (lo + hi) // 2
+                trial = list(lists)
+                trial[i] = lists[i][:mid]
+                c2 = attempt(trial)
+                if c2 is not None:
+                    hi = mid
+                    cand, lists = c2, trial
+                else:
+                    lo = mid + 1
+            # 2. zero chunks
+            n = len(lists[i])
+            size = max(1, n // 2)
+            while size >= 1 and evals[0] < max_evals and time.time() < t_end:
+                pos = 0
+                while pos < n:
+                    if any(lists[i][pos:pos + size]):
+                        trial = list(lists)
+                        trial[i] = lists[i][:pos] + [0] * min(size, n - pos) + lists[i][pos + size:]
+                        c2 = attempt(trial)
+                        if c2 is not None:
+                            cand, lists = c2, trial
+                    pos += size
+                if size == 1:
+                    break
+                size //= 2
+            while lists[i] and lists[i][-1] == 0:
+                lists[i] = lists[i][:-1]
+        for sl, nl in zip(sched_slots(cand), lists):
+            sl["sched"]["choices"] = nl
+        if not self._holds(cand, klass):
+            return case
+        cand["schedule_minimised"] = {"evaluations": evals[0], "nonzero_choices": [sum(1 for x in l if x) for l in lists],
+                                      "lengths": [len(l) for l in lists]}
+        return cand
 
     # -------------------------------------------------------- main loop
     def run_cases(self, gen, max_cases=None, reserve_s=8):
@@ -307,9 +421,32 @@ class Check:
         return 0
 
 
+def sched_slots(case):
+    """All dicts inside case['configs'|'plans'|'variants'] that carry a 'sched' entry (in a fixed order)."""
+    out = []
+
+    def walk(x):
+        if isinstance(x, dict):
+            if isinstance(x.get("sched"), dict):
+                out.append(x)
+            else:
+                for k in sorted(x):
+                    walk(x[k])
+        elif isinstance(x, list):
+            for y in x:
+                walk(y)
+    for key in ("configs", "plans", "variants"):
+        walk(case.get(key))
+    return out
+
+
+def sched_key(sc):
+    return json.dumps({k: v for k, v in sc.items() if k not in ("max_steps", "max_ticks", "crash_step")}, sort_keys=True)
+
+
 def load_known(prop):
     p = os.path.join(VERIF, "known_findings.json")
-    if not os.path.exists(p):
+    if not os.path.exists(p) or os.environ.get("VERIF_IGNORE_KNOWN"):  # the latter: self-test of shrinking/replay on a real finding
         return []
     with open(p) as f:
         data = json.load(f)
